@@ -71,6 +71,7 @@ type Stats struct {
 	Samples    []Sample       `json:"samples"`
 	LastIdx    int            `json:"last_idx"`
 	Complete   bool           `json:"complete"` // reached the end of its index range
+	Final      bool           `json:"final"`
 	WallS      float64        `json:"wall_s"`
 	Exhaustive map[string]int `json:"exhaustive,omitempty"` // named sub-spaces enumerated completely -> size
 }
